@@ -279,6 +279,17 @@ func execXW(o *Out, id, line string) {
 			o.Violate("C05", fmt.Sprintf("Seek(0,End)=%d,%v want %d", end, err, len(data)), "rt-end", line)
 		}
 	}
+	// the Lean RFC 1951 specification and the Lean model of Reader.Reset see the same bytes
+	if len(out) < 6000 {
+		o.Emit(id+"f", "", "fl id="+id+"f in="+hx(out), fmt.Sprintf("%s:eof:%d", hx(data), len(out)), "")
+		if xr != nil {
+			var rs []string
+			for _, rec := range xr.VerifRecords() {
+				rs = append(rs, fmt.Sprintf("%d:%d:%d", rec.CompOffset, rec.RawOffset, rec.Type))
+			}
+			o.Emit(id+"o", "", "xo id="+id+"o stream="+hx(out), "ok:"+joinOr(rs, ";"), "")
+		}
+	}
 	// ---- C06 plain DEFLATE, two decoders
 	if got, unread, err := inflateAll(out); err != nil || unread != 0 || !bytes.Equal(got, data) {
 		o.Violate("C06", fmt.Sprintf("compress/flate on the XFLATE stream: err=%v unread=%d out=%d want=%d", err, unread, len(got), len(data)), "deflate-std", line)
